@@ -35,6 +35,31 @@ check("C02",
       TB + " Kernels (numpy_groupies, numbagg, ufunc.reduceat) are primitives whose assumed semantics are checked on every replayed task.",
       "TLA+ pipeline model on the live registry (TLC) + trace validation of API returns and of every task of real dask graphs", "DESIGN.md section 5 C02")
 
+check("C03",
+      "Three TLC layers: MC_Laws!Bracket (combine insensitive to bracketing, on the live registry), MC_Tree (both tree builders well formed for all "
+      "nblocks x split_every incl. the extra-level deviation) and Exec.tla instantiated with REAL exported graphs (Confluence under every interleaving "
+      "of RunTask with Lose/re-execution; exhaustive for small graphs, simulation beyond). Bound to the code by: real trees validated against Tree.tla "
+      "(TraceTree), TLC-generated schedules replayed on the real graph by the harness scheduler with per-task digests compared across schedules, threaded "
+      "runs, and final results per split_every validated by TraceReduce.",
+      TB + " Distributed schedulers are represented by the RunTask/Lose/re-execution model.",
+      "TLC on real exported task graphs (all interleavings) + schedule replay on the real graph + tree conformance", "DESIGN.md section 5 C03")
+check("C04",
+      "MC_Laws checks Exact / Bracket / Neutral for every blueprint of the LIVE registry and the driver's user-defined Aggregation objects over every "
+      "member sequence of the alphabet and every split into three ordered parts incl. empty ones (a mutated table must be rejected); each (sequence, "
+      "split) class is replayed as a 3-block dask array by name and as flox.Aggregation objects, every task validated by TraceGraph and every lawful "
+      "final result by TraceReduce.",
+      TB, "TLC laws on the blueprint table generated from the live registry + task-level trace validation", "DESIGN.md section 5 C04")
+check("C06",
+      "MC_Pipeline restricted to positional reductions over a tie alphabet explores every chunking/tree depth with (value, global index) pairs; real "
+      "graphs are replayed task by task incl. the zipped index blocks (must be the global arange), and eager/chunked Returns over all chunkings, "
+      "strategies and split_every are validated against Ref on global positions.",
+      TB, "TLC pipeline model (positional) + task-level and API-level trace validation", "DESIGN.md section 5 C06")
+check("C13",
+      "Exec.tla on a real exported graph: Confluence under all interleavings with Lose/re-execution, and the negative control (one impure task must break "
+      "Confluence). Every task of real graphs of every reduction x strategy x engine and of the scans is executed with frozen inputs, input digests "
+      "before/after, a second execution and a cloudpickle round trip; the event stream is validated by the stateful trace spec TraceExec.tla.",
+      TB + " Content digests identify values.", "TLC scheduler model with fault actions + stateful trace validation of real executions", "DESIGN.md section 5 C13")
+
 ALL = [f"C{n:02d}" for n in range(1, 21)]
 
 def main():
